@@ -110,6 +110,27 @@ def r014(report, index):
     return rule
 
 
+def r015(report, M):
+    """white space the pretty printer itself emits must be transparent to
+    the lexer's division / regex decision (C05 is assumed for the rest)"""
+    from .c05 import peek_skip_set
+    rule = report.rule('R01.5', 'layout white space printed by the indent '
+                       'table is seen through by the `/` look-behind',
+                       floor=2)
+    lm = M.lexmodel
+    skip = peek_skip_set(lm)
+    for ch, what in ((' ', 'the space printed by Space / indentation'),
+                     ('\t', 'a tab indentation string')):
+        rule.check(ch in skip and ch in lm.ignore.get('INITIAL', ''),
+                   'peek sees through %r' % ch, 'printed %r before `/`' % ch,
+                   '%s precedes a regular expression literal at the start '
+                   'of a line, but Lexer._token does not look past %r when '
+                   'deciding between division and regex: the pretty output '
+                   'is re-read differently' % (what, ch),
+                   where='lexers/es5.py:Lexer._token')
+    return rule
+
+
 def run(report, index, tier):
     M = models(index)
     guard_transcriptions(index, M)
@@ -128,6 +149,7 @@ def run(report, index, tier):
                 'table', handlers, handled)
     r013(report, E, M, handlers, handled)
     r014(report, index)
+    r015(report, M)
     report.not_decided += [
         'that walker.walk implements the rule semantics assumed '
         '(trusted, digest-guarded)',
